@@ -101,9 +101,8 @@ theorem C02_reopen_keeps_store (so : StrictOrder kind.lt) (hH : Hash32 H) (m : M
     (sys : Sys (KMap Bytes) Bytes) (hist : Recs Bytes) (d : Disk)
     (t : Tied H kind sz N m sys hist d) (spec : Spec) (tn : Nat)
     (inv : SInv H sz m d spec tn) (ng : NoGarbage m d) (ns : NoStaging d)
-    (cfg : Config) (hk : cfg.kind = kind) (hn : cfg.N = N) (e1 : List Ev) (pre : Bool)
-    (hg : settingsGate cfg (d.applyAll (closeScript m)) = .ok (e1, pre))
-    (hsaveAny : ∀ (dd : Disk) a, logical H kind dd = .ok a → SaveOK kind a.idx ∧ a.highest + 1 < U64) :
+    (cfg : Config) (hk : cfg.kind = kind) (hn : cfg.N = N)
+    (ho : OpenOK H kind cfg (d.applyAll (closeScript m))) :
     ∃ m2 sys2, (∀ m' sc, (openBody H cfg (d.applyAll (closeScript m))).2 = .ok (m', sc) → m' = m2) ∧
       Tied H kind sz N m2 sys2 hist ((d.applyAll (closeScript m)).applyAll
         (openBody H cfg (d.applyAll (closeScript m))).1) ∧
@@ -114,7 +113,7 @@ theorem C02_reopen_keeps_store (so : StrictOrder kind.lt) (hH : Hash32 H) (m : M
       NoStaging ((d.applyAll (closeScript m)).applyAll
         (openBody H cfg (d.applyAll (closeScript m))).1) := by
   obtain ⟨m2, sys2, h1, hmap, t2⟩ :=
-    C02_reopen_transparent_bytes H kind sz N so hH m sys hist d t cfg hk hn e1 pre hg hsaveAny
+    C02_reopen_transparent_bytes H kind sz N so hH m sys hist d t cfg hk hn ho
   -- no event of close + open mentions a blob or a staging file
   have hquiet : ∀ e ∈ closeScript m ++ (openBody H cfg (d.applyAll (closeScript m))).1,
       (∀ g, e.sparesCas g = true) ∧ (∀ t, e.touches (.staging t) = false) ∧
@@ -324,9 +323,8 @@ theorem C02_reopen_succeeds (so : StrictOrder kind.lt) (hH : Hash32 H) (m : Mem)
     (inv : SInv H sz m d spec tn) (ng : NoGarbage m d) (ns : NoStaging d)
     (nostray : ∀ p, d.get (.stray p) = none)
     (P : Bytes → Prop) (hinj : Inj H sz P) (hspecP : ∀ k c, spec k = some c → P c)
-    (cfg : Config) (hk : cfg.kind = kind) (hn : cfg.N = N) (e1 : List Ev) (pre : Bool)
-    (hg : settingsGate cfg (d.applyAll (closeScript m)) = .ok (e1, pre))
-    (hsaveAny : ∀ (dd : Disk) a, logical H kind dd = .ok a → SaveOK kind a.idx ∧ a.highest + 1 < U64) :
+    (cfg : Config) (hk : cfg.kind = kind) (hn : cfg.N = N)
+    (ho : OpenOK H kind cfg (d.applyAll (closeScript m))) :
     ∃ m2 sys2 sc, (openBody H cfg (d.applyAll (closeScript m))).2 = .ok (m2, sc) ∧
       sc.missing = [] ∧ sc.corrupted = [] ∧ m2.idx.map = m.idx.map ∧
       Tied H kind sz N m2 sys2 hist ((d.applyAll (closeScript m)).applyAll
@@ -337,6 +335,7 @@ theorem C02_reopen_succeeds (so : StrictOrder kind.lt) (hH : Hash32 H) (m : Mem)
         (openBody H cfg (d.applyAll (closeScript m))).1) ∧
       NoStaging ((d.applyAll (closeScript m)).applyAll
         (openBody H cfg (d.applyAll (closeScript m))).1) := by
+  obtain ⟨e1, pre, hg, hsv⟩ := ho
   have hfree : ∀ e ∈ closeScript m, e.segFree = true ∧ e.indexFree = true := by
     intro e he
     unfold closeScript at he
@@ -345,7 +344,7 @@ theorem C02_reopen_succeeds (so : StrictOrder kind.lt) (hH : Hash32 H) (m : Mem)
     · cases he
   have c1 := (t.cfg.toDCfg.freeAll H kind sz N sys hist d (closeScript m) hfree).crash H kind sz N sys hist _
   obtain ⟨acc, _, hr, _, _, m2, sys2, _, hmap2, _, t2, hres⟩ :=
-    open_sim_full H kind sz N so hH cfg hk hn _ hist _ c1 rfl e1 pre hg (fun a ha => hsaveAny _ a ha)
+    open_sim_full H kind sz N so hH cfg hk hn _ hist _ c1 rfl e1 pre hg hsv
   have hmap : m2.idx.map = m.idx.map := by
     rw [hmap2]
     have hM := t.mem_eq H kind sz N
